@@ -642,6 +642,11 @@ func (rl *Shell) viDeleteChar() {
 	vii := rl.Iterations.Get()
 
 	for i := 1; i <= vii; i++ {
+		// Don't go past the end of the line.
+		if rl.cursor.Pos() >= rl.line.Len() {
+			break
+		}
+
 		cutBuf = append(cutBuf, rl.cursor.Char())
 		rl.line.CutRune(rl.cursor.Pos())
 	}
